@@ -56,6 +56,9 @@ namespace Amgcl
 namespace Relax
 variable {K : Type} [Add K] [Mul K] [Sub K] [Zero K] [One K] [Div K] [LT K] [DecidableLT K]
 
+/-- no row stores a column twice (then the copy loop `w[col] = val` and the denoted row `rowGet` agree) -/
+def noRepeatb {K : Type} (A : CRS K) : Bool := A.rows.all (fun r => decide ((r.map (·.1)).Nodup))
+
 /-- the numerical parameters of `ilut::params` as the constructor uses them -/
 structure IlutParams (K : Type) where
   /-- `len ↦ static_cast<int>(len * prm.p)` -/
@@ -134,6 +137,7 @@ structure IlutDrop (K : Type) where
   cutL : Row K
   /-- slots right of the diagonal that are not stored (`norm ≤ tol`, or cut by the fill limit `up`) -/
   dropU : Row K
+deriving Repr, DecidableEq
 
 def IlutDrop.isEmpty (d : IlutDrop K) : Bool := d.skipped.isEmpty && d.cutL.isEmpty && d.dropU.isEmpty
 
